@@ -44,10 +44,15 @@ def rules(ctx, db):
             if hit:
                 writers[db.root_fn(f).name] = f
     ctx.floor("R1", "functions mutating Inner::bufs", len(writers), 3)
-    allowed = {BP + "Shared::take", BP + "Shared::reset", BP + "BufferPoolRoot::release"}
     for name, f in sorted(writers.items()):
-        ctx.ob("R1", "slot-writer:" + name, name in allowed,
-               "Inner::bufs may be mutated only by Shared::take, Shared::reset and BufferPoolRoot::release", f)
+        root = db.root_fn(f)
+        own = root.self_adt in (BP + "Shared", BP + "BufferPoolRoot")
+        # role of the writer: empties a slot (Option::take), refills one (Some + re-provide) or drains all (mem::take + free)
+        role = bool(calls(f, r"core::option::Option::<T>::take$")) or bool(calls(f, r"BufControl::reset$")) or \
+            (bool(calls(f, r"^core::mem::take$")) and bool(indirect_calls(f, "deallocate")))
+        ctx.ob("R1", "slot-writer:" + name, own and role,
+               "Inner::bufs is mutated only by the pool's own private types, in one of three roles: take a slot "
+               "(→ None), refill it and re-provide the buffer, or drain everything at release", f)
     ctors = []
     for f in db.fns.values():
         for bi, si, s in f.stmts():
